@@ -75,6 +75,8 @@ class C09:
             idents.append("".join(rng.choice(extra) for _ in range(rng.randint(4, 12))))
         for c in extra:
             idents.append(c)
+        for n in (64, 250, 251, 256, 300, 1000):
+            idents += ["x" * n, "a-b." * (n // 4), "build" + "x" * n]
         seen = set()
         self.macro_set = []
         for s in idents:
